@@ -158,6 +158,51 @@ func runC10(r *Run) {
 		sendRaw(m + " /remoteDesktopGateway/ HTTP/1.1\r\nHost: x\r\n" + hdr + "\r\n" + body)
 		r.Count("raw:" + m + hdr + body)
 	}
+	// one connection identifier used on both transports, in every order, then everything dropped
+	tunnelAlive := func() bool {
+		w, err := dialWS(addr, "{"+randHex(8)+"}", "")
+		if err != nil {
+			return false
+		}
+		defer w.close()
+		w.send(mkPacket(tHandshake, bodyHandshake(1, 0, 0, 0)))
+		m, err := w.recv(3 * time.Second)
+		return err == nil && len(m) >= 8 && m[0] == 2
+	}
+	for _, ord := range [][]string{{"OUT", "IN", "WS"}, {"WS", "OUT", "IN"}, {"OUT", "WS", "IN"}, {"OUT", "IN", "WS", "WS"}, {"WS", "WS"}} {
+		id := "{" + randHex(6) + "}"
+		var closers []func()
+		for _, m := range ord {
+			switch m {
+			case "WS":
+				if w, err := dialWS(addr, id, ""); err == nil {
+					w.send(mkPacket(tHandshake, bodyHandshake(1, 0, 0, 0)))
+					w.recv(300 * time.Millisecond)
+					closers = append(closers, w.close)
+				}
+			case "OUT":
+				if c, _, err := dialLegacyOut(addr, id, ""); err == nil {
+					closers = append(closers, func() { c.Close() })
+				}
+			case "IN":
+				if c, _, err := dialLegacyIn(addr, id, ""); err == nil {
+					p := mkPacket(tHandshake, bodyHandshake(1, 0, 0, 0))
+					c.Write([]byte(fmt.Sprintf("%x\r\n%s\r\n", len(p), p)))
+					closers = append(closers, func() { c.Close() })
+				}
+			}
+		}
+		time.Sleep(20 * time.Millisecond)
+		for _, f := range closers {
+			f()
+		}
+		time.Sleep(30 * time.Millisecond)
+		r.Count("same-id-both-transports:" + strings.Join(ord, ","))
+		if !tunnelAlive() {
+			r.Violation("c10-handler-wedged", "after one client used one connection identifier on both transports and went away, a new tunnel of another client gets no handshake response within 3 s: the gateway no longer serves other clients", "requests with one Rdg-Connection-Id, in this order: "+strings.Join(ord, ", ")+" (WS = websocket upgrade, OUT/IN = legacy requests), each followed by a handshake packet where possible, then all connections closed\n")
+			break
+		}
+	}
 	time.Sleep(50 * time.Millisecond)
 	if s := errLog.String(); strings.Contains(s, "panic") {
 		r.Violation("c10-handler-panic", "the gateway's HTTP handler panicked on a client request (recovered per connection by net/http, but a runtime panic all the same)", tail(s, 2500))
